@@ -778,6 +778,20 @@ func (in *Inst) applyContract(con *Contract, args []Val, sig *types.Signature, r
 		if e.W.otherProp(en.Prop) {
 			continue // proved in that property's run; not needed (and not assumed) here
 		}
+		if en.Assumed {
+			e.note("assumed postcondition of " + con.Name + " used at a call (not checked against its body): " + en.Src)
+		}
+		if arg, ok := isFreshCall(en.Expr); ok && len(con.FreshExcept) > 0 {
+			// the callee proves isFresh only for the fields it does not exempt (fresh-except): callers may assume
+			// no more than that
+			for _, ff := range post.freshOf(arg) {
+				if _, exempt := con.FreshExcept[ff.Path]; exempt {
+					continue
+				}
+				e.assume(st.reach, ff.Cond)
+			}
+			continue
+		}
 		t := in.specBool(en.Expr, post)
 		e.assume(st.reach, t)
 	}
@@ -1168,6 +1182,16 @@ func calleeName(c *ssa.CallCommon) string {
 	if n, ok := c.Value.Type().(*types.Named); ok {
 		return n.Obj().Name()
 	}
+	// a function value of unnamed type loaded from a struct field: the event is named after the field
+	if u, ok := c.Value.(*ssa.UnOp); ok && u.Op == token.MUL {
+		if fa, ok := u.X.(*ssa.FieldAddr); ok {
+			if pt, ok := fa.X.Type().Underlying().(*types.Pointer); ok {
+				if st, ok := pt.Elem().Underlying().(*types.Struct); ok {
+					return st.Field(fa.Field).Name()
+				}
+			}
+		}
+	}
 	return c.Value.Name()
 }
 
@@ -1499,10 +1523,11 @@ func (in *Inst) goEvent(x *ssa.Go, st *State) {
 	}
 }
 
-// selectEvent: a select statement is an event named "select" for `assert before select: ..` clauses of the
-// function under contract (also when it sits in an inlined closure); argN is the channel of case N in source order.
-// A clause naming a case the statement does not have fails as that obligation.
-func (in *Inst) selectEvent(x *ssa.Select, st *State) {
+// pseudoEvent: statements that are not calls but matter to typestates - `select` (argN: channel of case N),
+// `maplookup` (arg0: the map, arg1: the key) and `mapupdate` (arg0: the map, arg1: key, arg2: value) - are events for
+// `assert before <name>: ..` clauses of the function under contract (also inside an inlined closure). A clause naming
+// an argument the statement does not have fails as that obligation.
+func (in *Inst) pseudoEvent(name string, x ssa.Instruction, args []ssa.Value, st *State) {
 	if st.reach == "false" {
 		return
 	}
@@ -1515,18 +1540,18 @@ func (in *Inst) selectEvent(x *ssa.Select, st *State) {
 	}
 	for _, con := range cons {
 		for i, ca := range con.Asserts {
-			if ca.Callee != "select" || ca.After || in.e.W.otherProp(ca.Clause.Prop) {
+			if ca.Callee != name || ca.After || in.e.W.otherProp(ca.Clause.Prop) {
 				continue
 			}
 			env := in.newEnv(st)
 			env.atBlock = x.Block()
 			env.atIdx = instrIndex(x)
-			for k, s := range x.States {
+			for k, a := range args {
 				func() {
 					defer func() { recover() }()
-					v := in.val(s.Chan, st)
+					v := in.val(a, st)
 					if v.Ty == nil {
-						v.Ty = s.Chan.Type()
+						v.Ty = a.Type()
 					}
 					env.vars[fmt.Sprintf("arg%d", k)] = v
 				}()
@@ -1535,7 +1560,7 @@ func (in *Inst) selectEvent(x *ssa.Select, st *State) {
 				defer func() {
 					if r := recover(); r != nil {
 						if u, ok := r.(unsupported); ok && strings.Contains(u.msg, "unknown name") {
-							in.e.note("clause `" + exprString(ca.Clause.Expr) + "` cannot be evaluated at a select statement: " + u.msg)
+							in.e.note("clause `" + exprString(ca.Clause.Expr) + "` cannot be evaluated at a " + name + " statement: " + u.msg)
 							t = "false"
 							return
 						}
@@ -1548,9 +1573,17 @@ func (in *Inst) selectEvent(x *ssa.Select, st *State) {
 			if con != in.con {
 				site = "in:" + in.fn.Name()
 			}
-			o := in.e.oblige("assert", fmt.Sprintf("before:select#%s/%d", site, i), x.Pos(), st.reach, t)
+			o := in.e.oblige("assert", fmt.Sprintf("before:%s#%s/%d", name, site, i), x.Pos(), st.reach, t)
 			o.Top = true
 			o.Prop = ca.Clause.Prop
 		}
 	}
+}
+
+func (in *Inst) selectEvent(x *ssa.Select, st *State) {
+	var args []ssa.Value
+	for _, s := range x.States {
+		args = append(args, s.Chan)
+	}
+	in.pseudoEvent("select", x, args, st)
 }
